@@ -390,7 +390,7 @@ func handleFlagsAliases() {
 		viper.Set("max-concurrent-assets", viper.GetInt("ca"))
 	}
 
-	if viper.GetInt("msr") != 20 && viper.GetInt("min-space-required") == 20 {
+	if viper.IsSet("msr") && viper.GetInt("msr") != 20 && viper.GetInt("min-space-required") == 20 {
 		viper.Set("min-space-required", viper.GetInt("msr"))
 	}
 }
